@@ -15,13 +15,49 @@ import TdModel.Lemmas.C16Send
 namespace TdModel.C16
 open TdModel TdModel.Bin TdModel.Codec
 
-/-- Tie: the constants, guards and tags read from the current source are the specification's
-(frame limit 2^24, abridged switch at 127 words / marker 0x7f, reader allowances for the envelope the
-writers add, tags `ef`, `eeeeeeee`, `dddddddd`). -/
-theorem cfg_is_spec : cfg = Cfg.spec := by decide
+/-- Tie: every decision and arithmetic expression translated from the current source *means* what the
+specification says (frame limit 2^24 on the payload when writing and on the wire length minus the
+writer's envelope when reading, alignment 4, abridged switch at 127 words with marker 0x7f, full
+length word `len+12`, padding `last byte % 4`, tags `ef`, `eeeeeeee`, `dddddddd`) — proved by
+arithmetic for all arguments, field by field. -/
+theorem cfg_is_spec : cfg = Cfg.spec := by
+  have tm : ∀ (a : Nat), Int.tmod (a : Int) 4 = ((a % 4 : Nat) : Int) := fun a => (Int.ofNat_tmod a 4).symm
+  apply Cfg.ext
+  case lenRejects => funext n e; simp only [cfg, Cfg.spec, Facts.C16.lenRejects]; rw [Bool.eq_iff_iff]; simp; omega
+  case outRejects => funext n; simp only [cfg, Cfg.spec, Facts.C16.outRejects]; rw [Bool.eq_iff_iff]; simp; omega
+  case abrShort => funext n; simp only [cfg, Cfg.spec, Facts.C16.abrShort]; rw [Bool.eq_iff_iff]; simp; omega
+  case abrLong => funext n; simp only [cfg, Cfg.spec, Facts.C16.abrLong]; rw [Bool.eq_iff_iff]; simp; omega
+  case abrRejects => funext n; simp only [cfg, Cfg.spec, Facts.C16.abrRejects]; rw [Bool.eq_iff_iff]; simp; omega
+  case fullRejects => funext n; simp only [cfg, Cfg.spec, Facts.C16.fullRejects]; rw [Bool.eq_iff_iff]; simp; omega
+  case misaligned => funext n; simp only [cfg, Cfg.spec, Facts.C16.misaligned, tm]; rw [Bool.eq_iff_iff]; simp; omega
+  case isCode => funext n; simp only [cfg, Cfg.spec, Facts.C16.notCode]; rw [Bool.eq_iff_iff]; simp; omega
+  case abrWords => funext n; simp only [cfg, Cfg.spec, Facts.C16.abrWords]; try omega
+  case abrBytes => funext n; simp only [cfg, Cfg.spec, Facts.C16.abrBytes]; try omega
+  case fullExpand => funext n; simp only [cfg, Cfg.spec, Facts.C16.fullExpand]; try omega
+  case fullInnerHi => funext n; simp only [cfg, Cfg.spec, Facts.C16.fullInnerHi]; try omega
+  case fullPayload => funext n; simp only [cfg, Cfg.spec, Facts.C16.fullPayload]; try omega
+  case fullCrcHi => funext n; simp only [cfg, Cfg.spec, Facts.C16.fullCrcHi]; try omega
+  case fullCopyHi => funext n; simp only [cfg, Cfg.spec, Facts.C16.fullCopyHi]; try omega
+  case fullWire => funext n; simp only [cfg, Cfg.spec, Facts.C16.fullWire]; try omega
+  case padOf => funext n; simp only [cfg, Cfg.spec, Facts.C16.padOf, tm]; try omega
+  case padStrip => funext n; simp only [cfg, Cfg.spec, Facts.C16.padStrip, tm]; try omega
+  case fullInnerLo => funext n; simp only [cfg, Cfg.spec, Facts.C16.fullInnerLo]
+  case fullCrcLo => funext n; simp only [cfg, Cfg.spec, Facts.C16.fullCrcLo]
+  case fullCopyLo => funext n; simp only [cfg, Cfg.spec, Facts.C16.fullCopyLo]
+  case abrMark => decide
+  case fullEnvelope => decide
+  case padEnvelope => decide
+  case tagAbridged => decide
+  case tagIntermediate => decide
+  case tagPadded => decide
 
-theorem frame_limit_is_16MiB : cfg.maxMsg = 2 ^ 24 := by decide
-theorem abridged_switch_is_127 : cfg.abrThrW = 127 ∧ cfg.abrThrR = 127 ∧ cfg.abrMark = 0x7f := by decide
+theorem frame_limit_is_16MiB : Facts.C16.maxMessageSize = 2 ^ 24 ∧
+    (∀ l : Nat, cfg.outRejects l = decide (l > 2 ^ 24 ∨ l = 0)) := by
+  refine ⟨by decide, fun l => ?_⟩
+  rw [cfg_is_spec]; rfl
+theorem abridged_switch_is_127 : (∀ w : Nat, cfg.abrShort w = decide (w < 127)) ∧
+    (∀ b : Nat, cfg.abrLong b = decide (b ≥ 127)) ∧ cfg.abrMark = 0x7f := by
+  rw [cfg_is_spec]; exact ⟨fun _ => rfl, fun _ => rfl, rfl⟩
 theorem tags : cfg.tagAbridged = [0xef] ∧ cfg.tagIntermediate = [0xee, 0xee, 0xee, 0xee]
     ∧ cfg.tagPadded = [0xdd, 0xdd, 0xdd, 0xdd] := by decide
 
@@ -44,11 +80,11 @@ theorem write_accepts (crc : Bytes → Nat) (k : Kind) (seq : Int) (rnd p : Byte
   have hmax' : p.length ≤ 16777216 := hmax
   rw [cfg_is_spec]
   unfold enc
-  have h1 : ¬ (p.length > Cfg.spec.maxMsg ∨ p.length = 0) := by
-    show ¬ (p.length > 16777216 ∨ p.length = 0)
-    omega
-  have h2 : ¬ (k ≠ .full ∧ p.length % 4 ≠ 0) := by simp [h4]
-  simp only [h1, h2, if_false]
+  have h1 : Cfg.spec.outRejects p.length = false := by
+    rw [spec_outRejects, decide_eq_false_iff_not]; omega
+  have h2 : ¬ (k ≠ .full ∧ Cfg.spec.misaligned p.length = true) := by
+    rw [spec_misaligned]; simp [h4]
+  simp only [h1, h2, Bool.false_eq_true, if_false]
 
 /-- **One frame.**  For every protocol, reading what `Write` produced for a valid payload — followed
 by any further bytes — returns exactly that payload and leaves exactly those further bytes. -/
@@ -140,25 +176,25 @@ theorem pinned_full_counterexample (crc : Bytes → Nat) (seq : Int) (rnd p rest
   · unfold enc
     have hhi' : p.length ≤ 16777216 := hhi
     have hlo' : 16777216 - 12 < p.length := hlo
-    have h1 : ¬ (p.length > Cfg.pinned.maxMsg ∨ p.length = 0) := by
-      show ¬ (p.length > 16777216 ∨ p.length = 0)
-      omega
-    simp only [h1, if_false]
+    have h1 : Cfg.pinned.outRejects p.length = false := by
+      show decide (p.length > 16777216 ∨ p.length = 0) = false
+      rw [decide_eq_false_iff_not]; omega
+    simp only [h1, Bool.false_eq_true, if_false]
     simp
   · exact pinned_full_rejects crc seq rnd p rest hlo hhi
 
 /-- Pinned tree, padded intermediate: a `2^24`-byte payload whose last byte is not ≡ 0 (mod 4). -/
 theorem pinned_padded_counterexample (crc : Bytes → Nat) (seq : Int) (rnd p rest : Bytes)
-    (hlen : p.length = 2 ^ 24) (hpad : 0 < padLen p) :
+    (hlen : p.length = 2 ^ 24) (hpad : 0 < padLen Cfg.pinned p) :
     (read Cfg.pinned crc .padded seq (encRaw Cfg.pinned crc .padded seq rnd p ++ rest)).out
-      = .err (.badLen (p.length + padLen p)) :=
+      = .err (.badLen (p.length + padLen Cfg.pinned p)) :=
   pinned_padded_rejects crc seq rnd p rest hlen hpad
 
 /-! ### Non-vacuity -/
 
 example : Valid (List.replicate 16777216 1) := by
   unfold Valid; rw [List.length_replicate]; decide
-example : 0 < padLen (List.replicate 16777216 1) := by
+example : 0 < padLen Cfg.pinned (List.replicate 16777216 1) := by
   have : lastByte (List.replicate 16777216 (1 : UInt8)) = 1 := by
     unfold lastByte; rw [List.getLast?_replicate]; rfl
   rw [padLen, this]; decide
